@@ -23,7 +23,7 @@ package controllers
 //@   ensures [C01,C15] !result ==> (forall k int :: 0 <= k && k < len(previous) ==> !isCtrl(obj, oid(clientObj(previous[k]))))
 //@   loop @GetRemotePhases invariant oldmem_unchanged()
 //@   loop @GetRemotePhases invariant [C01,C15] 0 <= idx && (forall k int :: 0 <= k && k < idx ==> !isCtrl(obj, oid(clientObj(previous[k]))))
-//@   loop @SetGroupVersionKind invariant oldmem_unchanged()
+//@   loop @IsController invariant oldmem_unchanged()
 // (the converse, !result ==> !byPrev, needs the frame of the freshly built owner object across the nested loops;
 //  the solvers do not discharge it reliably, so it is not claimed: see DESIGN.md §12)
 
@@ -53,7 +53,7 @@ package controllers
 //@   ensures [C03] probedOK() == old(probedOK())
 //@   ensures [C03] gomem_unchanged()
 
-//@ props C01,C02,C03,C04,C05,C09,C11
+//@ props C01,C02,C03,C04,C05,C08,C09,C11
 //@ func package-operator.run/internal/controllers.(*PhaseReconciler).desiredObject
 //@   readonly
 //@   fresh desiredObj, objid(desiredObj)
@@ -116,8 +116,10 @@ package controllers
 
 //@ func package-operator.run/internal/controllers.(*PhaseReconciler).teardownPhaseObject
 //@   requires [C04] !tdPending()
-//@   sink Writer.Delete requires [C05] lastGet() == 2 && isCtrl(arg1, oid(clientObj(owner)))
-//@   sink Writer.Delete requires [C05] *asstruct("sigs.k8s.io/controller-runtime/pkg/client.Preconditions", varargs[0]).UID == uid(arg1) && *asstruct("sigs.k8s.io/controller-runtime/pkg/client.Preconditions", varargs[0]).ResourceVersion == rv(arg1)
+//@   sink Writer.Delete requires [C05,C08] lastGet() == 2 && isCtrl(arg1, oid(clientObj(owner)))
+// (C08: the delete is pinned to the version in which the revision was seen to control the object, so an object adopted
+//  in place by the incoming revision in the meantime is not deleted during the handover)
+//@   sink Writer.Delete requires [C05,C08] *asstruct("sigs.k8s.io/controller-runtime/pkg/client.Preconditions", varargs[0]).UID == uid(arg1) && *asstruct("sigs.k8s.io/controller-runtime/pkg/client.Preconditions", varargs[0]).ResourceVersion == rv(arg1)
 //@   sink Writer.Delete requires [C04] !tdPending()
 //@   sink Writer.Patch#1 requires [C05] lastGet() == 2 && !isCtrl(arg1, oid(clientObj(owner))) && isOwner(arg1, oid(clientObj(owner)))
 //@   ensures [C04] err == nil && cleanupDone ==> pfViolations() > 0 || lastGet() == 4 || (lastGet() == 2 && !lastGetCtrl()[oid(clientObj(owner))]) || lastDeleteGone()
